@@ -1,6 +1,5 @@
 """CSS matcher."""
 from __future__ import annotations
-from datetime import datetime
 from . import util
 import re
 from . import css_types as ct
@@ -447,7 +446,21 @@ class Inputs:
     def validate_week(year: int, week: int) -> bool:
         """Validate week."""
 
-        max_week = datetime.strptime(f"{12}-{31}-{year}", "%m-%d-%Y").isocalendar()[1]
+        def dec_31_weekday(y: int) -> int:
+            """Day of the week (0 is Sunday) of December 31 in the given year of the proleptic Gregorian calendar."""
+            return (y + y // 4 - y // 100 + y // 400) % DAYS_IN_WEEK
+
+        # Find the week number of December 31 arithmetically so that every year is handled,
+        # not just the ones `datetime` can represent.
+        weekday = dec_31_weekday(year)
+        if 1 <= weekday <= 3:
+            # Monday through Wednesday belongs to week 1 of the next year.
+            max_week = 1
+        elif weekday == 4 or dec_31_weekday(year - 1) == 3:
+            # The year ends on a Thursday, or started on one.
+            max_week = 53
+        else:
+            max_week = 52
         if max_week == 1:
             max_week = 53
         return 1 <= week <= max_week
